@@ -126,8 +126,8 @@ def oracle(T: Transition) -> None:
                     rel = "larger_timestamp_but_older_commit"
                 else:
                     rel = "smaller_timestamp_than_expected"
-                T.flag({"problem": "time_travel_wrong", "probe": kind, "relation": rel, "clock": clock, "props": props},
-                       detail(probe_time=x,
+                T.flag({"problem": "time_travel_wrong", "relation": rel, "clock": clock, "props": props},
+                       detail(probe_time=x, probe=kind,
                               retained=[{"commit_index": m.idx(sid), "ts": ts_of[sid]} for sid in post.ids],
                               expected_commit_index=None if want_id is None else m.idx(want_id),
                               observed_commit_index=None if gid is None or gid not in m.byid else m.idx(gid)),
@@ -154,7 +154,7 @@ C09_ALPHABET = tuple(o for o in FULL_ALPHABET
 def variants(tier: str) -> List[Dict[str, Any]]:
     q = tier == "quick"
     V: List[Dict[str, Any]] = []
-    d = 4 if q else 6
+    d = 5 if q else 6
     d2 = 4 if q else 5
     one = dict(max_open=1)
     V.append(variant("tick", clock="TICK", depth=d, alphabet=C09_ALPHABET, **one))
@@ -163,9 +163,9 @@ def variants(tier: str) -> List[Dict[str, Any]]:
     V.append(variant("frozen-retention", clock="FROZEN", props=True, depth=d2, alphabet=C09_ALPHABET, **one))
     V.append(variant("tick-base3", clock="TICK", depth=3 if q else 4, alphabet=C09_ALPHABET,
                      base=[("append",), ("append2",), ("append",)], **one))
+    sb = C09_ALPHABET + STEP_BACK_OPS
+    V.append(variant("step-back", clock="STEP-BACK", depth=3 if q else 5, alphabet=sb, **one))
     if not q:
-        sb = C09_ALPHABET + STEP_BACK_OPS
-        V.append(variant("step-back", clock="STEP-BACK", depth=5, alphabet=sb, **one))
         V.append(variant("step-back-retention", clock="STEP-BACK", props=True, depth=4, alphabet=sb, **one))
     return V
 
@@ -181,12 +181,14 @@ def run(tier: str, seed: int) -> Report:
     rep.cov["depth_per_variant"] = {v["name"]: v["depth"] for v in V}
     rep.cov["alphabet"] = [hist.op_label(o) for o in C09_ALPHABET]
     if tier == "thorough":
-        for v in (V[0], V[1]):
-            d = hist.differential(PROP, tier, seed, v, 3, "checks.c09", res["visited"][v["name"]], set(rep.violations), rep)
-            rep.cov.setdefault("differential", {})[v["name"]] = {"depth": 3, "histories": d["nodes"], "canonical_states": d["states"]}
+        for v in (V[0], V[1], V[5]):
+            d = hist.differential(PROP, tier, seed, v, 4, "checks.c09", res["visited"][v["name"]], set(rep.violations), rep)
+            rep.cov.setdefault("differential", {})[v["name"]] = {"depth": 4, "histories": d["nodes"], "canonical_states": d["states"]}
+    rep.cov["states_counting"] = "distinct canonical states, summed over variants (each variant is its own search)"
     rep.cov["exhaustive"] = not rep.caps
     rep.cov["rule"] = (
         "per (clock mode, retention setting, base history): BFS over all histories of <= depth alphabet symbols, each "
+        "the successor of a transition that violated a state property or left the table unreadable is not expanded (counted as states_pruned_after_violation / states_broken_not_expanded). "
         "transition a real API call on the real table; states deduplicated by the canonical form of dsmc/hist.py. "
         "evaluations = transitions judged (every retained snapshot re-read and compared, every id looked up, every probe "
         "time looked up). A canonical state is non-trivial when it retains >= 2 snapshots of which >= 1 was committed "
